@@ -115,7 +115,10 @@ Definition plan_of (c : bcase) : res plan :=
   do ii <- opt_res (find_class ClInvoke funcs 0) EB_INTERNAL;
   if negb (check_shadowing te funcs) then Err EB_SHADOW else
   let sl := allocate_slots funcs ii in
-  if negb (init_bypass_ok funcs (sl_down sl)) then Err EB_INITTYPE else
+  (* bind.go checks init's returned types between the two allocation passes, and through downRmap
+     (not bypassRmap): a returned type that only a per-invocation consumer would give a slot, or
+     that is matched loosely, is reported as not provided *)
+  if negb (init_bypass_ok funcs (sl_down0 sl)) then Err EB_INITTYPE else
   Ok (mkPlan funcs ii sl).
 
 Fixpoint compile_all (te : tyenv) (dn up : list (nat * option nat)) (l : list (prov * list nat))
